@@ -223,6 +223,7 @@ pub fn run(ctx: &mut Ctx) {
   // LCDC/SCX/SCY/WX/WY/LYC hold at that moment, the DMA engine reading whatever page
   // was written, the timer). Random register writes interleaved with emulated time, on
   // memories full of random bytes; a panic is attributed to the unit.
+  let mut failing_stdout_transfers = 0u64;
   let mut storm_writes = 0u64;
   let mut storm_clocks = 0u64;
   let storm_units: u64 = if thorough { 64 } else { 16 };
@@ -278,8 +279,45 @@ pub fn run(ctx: &mut Ctx) {
     }
     r.ctx.distinct_key(hash_words(&[0x5702, k]));
   }
+  // ---- a standard output that fails every write (/dev/full): a serial transfer is a
+  // guest-controlled store; the host refusing the byte must not make the emulator panic.
+  // (In process: the real binary cannot be used for this, its own loader banner is a
+  // println! that panics on such a stream before any guest code runs - not guest-controlled.)
+  {
+    let u = unit;
+    unit += 1;
+    let resumed_here = matches!(r.ctx.resume, Some((c, _)) if c == u);
+    if r.ctx.mine_sub(u) && !resumed_here {
+      let image = support::make_image(0x00, 0x00, 0x00);
+      let mut core = support::core_from_image(&image);
+      let mp = &mut core.memory as *mut MemoryAreas;
+      r.ctx.intent(&[u, 0, 0, 0x81, 0xff02, 8, 7]);
+      use std::io::Write;
+      let _ = std::io::stdout().flush();
+      let full = std::ffi::CString::new("/dev/full").unwrap();
+      unsafe {
+        let fd = libc::open(full.as_ptr(), libc::O_WRONLY);
+        if fd >= 0 {
+          let saved = libc::dup(1);
+          libc::dup2(fd, 1);
+          libc::close(fd);
+          for k in 0..300u32 {
+            memory_write_byte(mp, 0xff01, 0x41 + (k % 26) as u8);
+            memory_write_byte(mp, 0xff02, 0x81);
+            core.memory.run_clock_cycles(crate::timing::ClockCycles(4 * 1200));
+            failing_stdout_transfers += 1;
+          }
+          let _ = std::io::stdout().flush();
+          libc::dup2(saved, 1);
+          libc::close(saved);
+        }
+      }
+      r.accesses += 300;
+    }
+  }
   r.ctx.sample("device storm: 30000 random writes per unit to LCD/timer/DMA/joypad/serial registers, OAM and VRAM (random contents), each followed by 4..2400 clocks of emulated time; nothing may panic");
   r.ctx.intent_clear();
+  r.ctx.count("serial-transfers-with-a-failing-stdout", failing_stdout_transfers);
   r.ctx.count("device-storm:register-writes", storm_writes);
   r.ctx.count("device-storm:clocks-of-emulated-time", storm_clocks);
   r.ctx.count("evaluations", r.accesses);
